@@ -12,7 +12,8 @@ Protocol (first line of a case is always `new`):
                                               tool: ok reorder garbage_empty garbage_ragged garbage_missing
                                                     garbage_length garbage_tree exit3 sigkill hang
                                                     missing isdir nulbyte
-    start | join - | join t | cancel | state | tick | call <method>
+    start | join - | join t | join 0 | join 0.0 | cancel | state | tick | call <method>
+    (`join t` = join(timeout=0.05); `join 0` / `join 0.0` = the boundary "do not wait")
 `tick` is the environment event "the external program is allowed to finish now" (the fake tools block on a gate
 file so that *when* the child exits is decided by the history, not by the scheduler).
 """
@@ -57,7 +58,8 @@ TECHNIQUE = "Lean 4 proof (invariant over all histories of a state machine) + re
 
 WRAPPERS = ["base", "local", "clustalo", "muscle3", "muscle5", "mafft"]
 TOOLS = ["ok", "reorder", "garbage_empty", "garbage_ragged", "garbage_missing", "garbage_length", "garbage_tree", "exit3",
-         "sigkill", "hang", "missing", "isdir", "nulbyte"]
+         "sigkill", "hang", "hang_ignore_term", "missing", "isdir", "nulbyte"]
+HANGS = ("hang", "hang_ignore_term")      # never exit on their own; the second one also ignores SIGTERM
 # tools that cannot even be launched: the exception Popen raises (only `missing`/`isdir` are OSErrors)
 LAUNCH_FAILURE = {"missing": "FileNotFoundError", "isdir": "PermissionError", "nulbyte": "ValueError"}
 FAILING_EXIT = ("exit3", "sigkill")
@@ -340,6 +342,7 @@ class _Session:
         self.trace = []       # per op: dict(op, result, before, after)
         self.sequences = None
         self.stub_child = "none"
+        self.force_finish = False     # watchdog: unblock a join() of the stub that would wait forever
 
     # -- construction
     def _sequences(self):
@@ -394,7 +397,7 @@ class _Session:
                     sess.stub_child = "alive"
 
                 def is_finished(self):
-                    return sess.tool != "hang" and os.path.exists(sess.gate)
+                    return sess.force_finish or (sess.tool not in HANGS and os.path.exists(sess.gate))
 
                 def wait_interval(self):
                     return 0.001
@@ -531,6 +534,36 @@ class _Session:
             return app.set_thread_number(1)
         return getattr(app, name)()
 
+    def _join_watched(self, timeout, limit):
+        """app.join(timeout) in a thread with a hard limit: a join that never returns is reported, not waited for."""
+        box = {}
+
+        def target():
+            try:
+                self.app.join() if timeout is None else self.app.join(timeout=timeout)
+                box["res"] = "ok"
+            except BaseException as e:  # noqa: BLE001
+                box["exc"] = e
+
+        th = threading.Thread(target=target, daemon=True)
+        th.start()
+        th.join(limit)
+        if th.is_alive():
+            # unblock it: let the stub finish, open the gate, kill the child; then give up on the thread
+            self.force_finish = True
+            self.release()
+            p = getattr(self.app, "_process", None)
+            if p is not None:
+                try:
+                    os.kill(p.pid, 9)
+                except OSError:
+                    pass
+            th.join(5.0)
+            return "hang-join"
+        if "exc" in box:
+            raise box["exc"]
+        return box["res"]
+
     def _wait_exit(self):
         p = getattr(self.app, "_process", None)
         if p is not None:
@@ -548,23 +581,26 @@ class _Session:
         try:
             if w[0] == "start":
                 app.start()
-                if self.released() and self.tool != "hang" and self.wrapper != "base":
+                if self.released() and self.tool not in HANGS and self.wrapper != "base":
                     self._wait_exit()                # gate already open: the child exits at once; make that observable
+                if self.tool == "hang_ignore_term" and self.wrapper != "base":
+                    end = time.time() + 10.0         # wait until the tool has installed its SIGTERM handler
+                    while time.time() < end and not any(e.get("event") == "started" for e in self.tool_log()):
+                        time.sleep(0.003)
                 return "ok"
             if w[0] == "join":
                 in_join = True
                 if w[1] == "-":
-                    if app._state.name == "RUNNING" and self.tool == "hang":
+                    if app._state.name == "RUNNING" and self.tool in HANGS:
                         return "unmodelled"          # join() without timeout on a program that never exits: diverges
                     running = app._state.name == "RUNNING" and not self.released()
                     if running:
                         t = threading.Timer(0.02, self.release)
                         self.timers.append(t)
                         t.start()
-                    app.join()
-                else:
-                    app.join(timeout=TIMEOUT)
-                return "ok"
+                    return self._join_watched(None, 20.0)
+                timeout = {"t": TIMEOUT, "0": 0, "0.0": 0.0}[w[1]]
+                return self._join_watched(timeout, 2.0)
             if w[0] == "cancel":
                 app.cancel()
                 return "ok"
@@ -572,7 +608,7 @@ class _Session:
                 return "ok " + app.get_app_state().name
             if w[0] == "tick":
                 self.release()
-                if self.wrapper != "base" and self.tool != "hang":
+                if self.wrapper != "base" and self.tool not in HANGS:
                     self._wait_exit()
                 return "ok"
             if w[0] == "call":
@@ -612,8 +648,8 @@ class _Session:
         p = getattr(self.app, "_process", None) if self.app is not None else None
         if p is not None:
             try:
-                p.kill()
-            except Exception:  # noqa: BLE001
+                os.kill(p.pid, 9)            # SIGKILL by pid: nothing may outlive the case, whatever clean_up() did
+            except OSError:
                 pass
             try:
                 p.communicate(timeout=5)
@@ -771,6 +807,11 @@ def oracle(case):
         if res in ("no-app", "unmodelled", "bad-op"):
             continue
         ww = op.split()
+        if res == "hang-join":
+            key = {"0": "C20/join/timeout-zero-does-not-time-out", "0.0": "C20/join/timeout-zero-does-not-time-out",
+                   "t": "C20/join/timeout-does-not-time-out", "-": "C20/join/never-returns"}[ww[1]]
+            v.append((key, f"`{op}` in state {b['st']} did not return within the watchdog limit ({case['ops']})"))
+            break
         name = {"start": "start", "join": "join", "cancel": "cancel", "state": "get_app_state"}.get(ww[0])
         if ww[0] == "call":
             name = ww[1]
@@ -863,6 +904,7 @@ def _new_line(rng, wrapper=None, tool=None):
 
 
 CORE_OPS = ["start", "join -", "join t", "cancel", "state", "tick"]
+BASE_OPS = CORE_OPS + ["join 0"]          # the generic Application.join is exhaustively driven with the boundary timeout too
 
 TEMPLATES = [
     ["start", "tick", "join -"], ["start", "join -"], ["start", "join t"], ["start", "tick", "join t"],
@@ -874,7 +916,7 @@ TEMPLATES = [
 
 def _sanitize(new_line, ops):
     """`join -` on a running program that never exits would block: use the timeout form in `hang` environments."""
-    if " hang " in new_line:
+    if new_line.split()[2] in HANGS:
         ops = ["join t" if o == "join -" else o for o in ops]
     return ops
 
@@ -891,7 +933,7 @@ def _random_history(rng, wrapper, maxlen):
     while len(ops) < n:
         r = rng.random()
         if r < 0.7 or not meths:
-            ops.append(rng.choice(CORE_OPS + ["join -", "tick", "cancel"]))
+            ops.append(rng.choice(CORE_OPS + ["join -", "tick", "cancel", "join 0", "join 0.0"]))
         else:
             ops.append("call " + rng.choice(meths))
     return ops[:maxlen]
@@ -905,7 +947,7 @@ def _exhaustive_base(maxlen):
     import itertools
     for tool in ["ok", "garbage_empty", "exit3", "hang", "missing"]:
         for n in range(1, maxlen + 1):
-            for ops in itertools.product(CORE_OPS, repeat=n):
+            for ops in itertools.product(BASE_OPS, repeat=n):
                 yield _mk(f"new base {tool} 2 prot", list(ops), "base-exhaustive")
 
 
@@ -955,6 +997,19 @@ def cases(rng, tier):
             add(_mk(f"new {wrapper} {tool} 3 prot", ["start", "join -"], "failing-exit"))
             if wrapper != "base":
                 add(_mk(f"new {wrapper} {tool} 3 prot", ["start", "tick", "state", "call get_exit_code", "join t", "call get_exit_code"], "failing-exit"))
+    # programs that never exit (one of them ignores SIGTERM): cancel / timeout must leave no live child
+    for wrapper in WRAPPERS:
+        for tool in HANGS:
+            for ops in (["start", "cancel"], ["start", "join t"], ["start", "join 0"], ["start", "tick", "join 0.0", "state"],
+                        ["start", "state", "cancel", "cancel"]):
+                add(_mk(f"new {wrapper} {tool} 2 prot", ops, "hang"))
+    # the boundary timeout 0 / 0.0 ("do not wait") in every state, finished and unfinished jobs
+    for wrapper in WRAPPERS:
+        for tool in ("ok", "reorder", "exit3"):
+            for z in ("0", "0.0"):
+                for ops in ([f"join {z}"], ["start", f"join {z}", "state"], ["start", "state", f"join {z}", f"join {z}"],
+                            ["start", "tick", f"join {z}"], ["start", "tick", "state", f"join {z}"]):
+                    add(_mk(f"new {wrapper} {tool} 3 prot", ops, "join-zero"))
     for c in _exhaustive_base(3 if quick else 4):
         if not quick or len(c["ops"]) <= 3 or rng.random() < 0.12:
             add(c)
@@ -1005,6 +1060,12 @@ def corpus():
         {"kind": "regression", "ops": ["new local ok 2 prot", "start", "tick", "call get_exit_code", "call get_exit_code"]},
         # output whose rows do not have the input's symbol counts must be rejected
         {"kind": "regression", "ops": ["new mafft garbage_length 3 generic", "start", "tick", "join -", "call get_alignment"]},
+        # a hanging program that ignores SIGTERM must still be gone after cancel / timeout
+        {"kind": "regression", "ops": ["new clustalo hang_ignore_term 2 prot", "start", "cancel"]},
+        {"kind": "regression", "ops": ["new local hang_ignore_term 2 prot", "start", "join t"]},
+        # timeout 0 / 0.0 on an unfinished job is a timeout, not "no timeout"
+        {"kind": "regression", "ops": ["new base ok 2 prot", "start", "join 0", "state"]},
+        {"kind": "regression", "ops": ["new base hang 2 prot", "start", "join 0.0"]},
         # reordered output, custom alphabet
         {"kind": "regression", "ops": ["new muscle3 reorder 4 generic", "start", "tick", "state", "join -", "call get_alignment",
                                        "call get_alignment_order"]},
